@@ -113,6 +113,7 @@ type Gen struct {
 	urls         []string
 	pendingProbe bool
 	altR         *PRNG
+	t0           time.Time // wall-clock start of the run (safety valve only)
 }
 
 func (g *Gen) next() int { g.uniq++; return g.uniq }
@@ -162,6 +163,13 @@ func (g *Gen) emit(st *Step) bool {
 			}
 		}
 	}
+	if !g.t0.IsZero() && time.Since(g.t0) > 30*time.Second && (st.Kind == KTx || st.Kind == KSim || st.Kind == KQuery) {
+		// the same safety valve, per step: no further txs once the run has become pathologically slow
+		// (the step is neither recorded nor executed; the block is still closed by its commit)
+		g.W.Probe("run_ended_early_by_the_wall_clock_safety_valve")
+		g.txs = g.P.MaxTxs
+		return true
+	}
 	g.Trace.Steps = append(g.Trace.Steps, st)
 	return g.W.Exec(st)
 }
@@ -174,8 +182,9 @@ func (g *Gen) Run() {
 	// early. What was executed up to here has been judged and is in the trace; only how far the
 	// run goes depends on the wall clock, never which steps it consists of.
 	t0 := time.Now()
+	g.t0 = t0
 	for g.blk = 0; g.blk < p.MaxBlocks && g.txs < p.MaxTxs; g.blk++ {
-		if time.Since(t0) > 45*time.Second {
+		if time.Since(t0) > 30*time.Second {
 			if g.W != nil {
 				g.W.Probe("run_ended_early_by_the_wall_clock_safety_valve")
 			}
